@@ -10,6 +10,7 @@
 //!   (`after_apply == false`: the entry is logged with `applied == false`) or after it was applied but
 //!   before the call returns (`applied == true`). The lock is released before the panic is raised and
 //!   `parking_lot` mutexes are not poisoned by unwinding, so the restart can never be wedged.
+//!   With `error == true` the call instead returns `Err(StoreError)` without applying the operation.
 
 use bytes::{BufMut, BytesMut};
 use parking_lot::Mutex;
@@ -69,6 +70,8 @@ pub struct Fault {
     /// Index (over all mutating calls) of the call that panics.
     pub at: u64,
     pub after_apply: bool,
+    /// Return an error (operation not applied) instead of panicking.
+    pub error: bool,
 }
 
 #[derive(Default)]
@@ -139,9 +142,9 @@ impl RecStore {
         let mut g = self.data.lock();
         let idx = g.mutations;
         g.mutations += 1;
-        let fire = match g.fault {
-            Some(f) if !g.fired && f.at == idx => Some(f.after_apply),
-            _ => None,
+        let (fire, error) = match g.fault {
+            Some(f) if !g.fired && f.at == idx => (Some(f.after_apply && !f.error), f.error),
+            _ => (None, false),
         };
         let applied = fire != Some(false);
         if applied {
@@ -156,6 +159,9 @@ impl RecStore {
         if fire.is_some() {
             g.fired = true;
             drop(g);
+            if error {
+                return Err(StoreError::DelegateMessage("store failure injected by the harness".into()));
+            }
             std::panic::panic_any(InjectedFault);
         }
         Ok(())
